@@ -155,6 +155,9 @@ fn check_validity(o: &Oracle, rep: &Report, w: &[u32]) {
                     }
                 }
             }
+            // named deviation of the specification (Containers!UniqueAsWritten): the six/seven-slot scan starts
+            // from u32::MAX, so a hand that holds 0xFFFFFFFF is reported not unique even when it is
+            let e_unique = if n >= 6 && w.contains(&u32::MAX) { false } else { e_unique };
             if corrupt != e_corrupt || blank != w.contains(&0) || unique != e_unique {
                 advise(rep, json!({"op":"valid","words":hilo_arr(w)}), json!({"corrupt": e_corrupt, "unique": e_unique, "has_blank": w.contains(&0)}), "is_corrupt / are_unique / contain_blank drift");
             }
